@@ -1,7 +1,7 @@
 ------------------------------- MODULE MCHeap -------------------------------
 (* Bounded model checking of the heap model: heap order, refinement of the   *)
 (* bag machine of AbsHeap (C06), size agreement (C15).                        *)
-EXTENDS Heap, AbsHeap
+EXTENDS Heap, AbsHeap, Json
 ItemsDef == {[p |-> 1, id |-> 1], [p |-> 1, id |-> 2], [p |-> 2, id |-> 3], [p |-> 2, id |-> 4], [p |-> 3, id |-> 5], [p |-> 0, id |-> 0]}
 HeapOrdered == \A i \in 1..Len(h)-1 : HCmp(At0(h, (i - 1) \div 2), At0(h, i)) <= 0
 \* C06 on every step: Pop/Peek return an element no contained element precedes; the bag is exact
@@ -13,4 +13,5 @@ Refines ==
         [] last'.op = "FromJSON" -> LoadAllowed(CmpName, last'.vs, h')
         [] OTHER -> TRUE ]_vars
 View == h
+Fid == PrintT("S|" \o ToJson(h))
 =============================================================================
